@@ -321,8 +321,16 @@ def bounded(tier, seed, R):
               for _ in range(300 if not thorough else 20000)]
     for n, d in pairs:
         def chk():
+            # the contract is over reals (A-FLOAT); natively the result of a float `%` whose operands differ in sign is
+            # rounded once (fmod + divisor), so the identity n = d * INT(n / d) + MOD(n, d) is checked to within that rounding
+            import math
             r = X.mod(n, d)
-            return post_mod(F(n), F(d), F(r))
+            if post_mod(F(n), F(d), F(r)):
+                return True
+            fn, fd, fr = F(n), F(d), F(r)
+            sign_ok = (fr == 0) or ((fr > 0) == (fd > 0))
+            err = abs(fn - (fd * math.floor(fn / fd) + fr))
+            return sign_ok and abs(fr) <= abs(fd) and err <= F(math.ulp(max(abs(n), abs(d), abs(r))))
         R.guard('mod/post#0:post_mod', chk, {'number': n, 'divisor': d})
     R.guard('mod/post#0:post_mod', lambda: X.mod(5, 0) == DIV0, {'number': 5, 'divisor': 0})
     # dyadic grids: float arithmetic is exact there
